@@ -307,7 +307,7 @@ let run_tryinit toks =
        | OutOfFuel -> "FUEL")
   | _ -> failwith "tryinit"
 
-let run_compress toks =
+let rec run_compress_v version toks =
   match toks with
   | [ a; bits; mn; mx; w; hl; comp; meta; src; srchash; hdrhash; tab ] ->
       let src = bytes_of_hex src in
@@ -321,7 +321,7 @@ let run_compress toks =
         | Some (_, _, c) -> if c = "-" then d else bytes_of_hex c
         | None -> d in
       let meta = if meta = "-" then [] else List.map (fun e -> match String.split_on_char ':' e with [ k; v ] -> (bytes_of_hex k, bytes_of_hex v) | _ -> failwith "meta") (split_on ';' meta) in
-      let opts = { o_cfg = config_of a bits mn mx w; o_hashlen = n_of_string hl; o_comp = comp_opt; o_meta = meta; o_version = pKG_VERSION_LIB } in
+      let opts = { o_cfg = config_of a bits mn mx w; o_hashlen = n_of_string hl; o_comp = comp_opt; o_meta = meta; o_version = version } in
       (* the header hash is keyed by the header prefix the model itself builds: two passes *)
       let htab0 = (src, bytes_of_hex srchash) :: List.map (fun (d, h, _) -> (d, h)) entries in
       let first = compress_model (hash_oracle htab0) compf src opts in
@@ -386,6 +386,56 @@ let run_ioread toks =
       pr_items (io_read_chunks (bytes_of_hex f) (ranges_of ranges) sc)
   | _ -> failwith "ioread"
 
+let run_compress toks = run_compress_v pKG_VERSION_LIB toks
+let run_compresscli toks = run_compress_v pKG_VERSION_CLI toks
+
+(* ---- command model ---- *)
+let nl (l : int list) : n list = List.map n_of_int l
+let src10 = nl [ 1; 2; 3; 4; 5; 6; 7; 8; 9; 10 ]
+let run_cmd toks =
+  match toks with
+  | [ cmd; outkind; flag; ak ] ->
+      let prior = nl [ 9; 9; 9 ] in
+      let out = match outkind with
+        | "absent" -> Absent | "regular" -> Reg prior
+        | "blockdev-small" -> Blk (nl [ 7; 7; 7; 7; 7 ]) | _ -> Blk (nl [ 7; 7; 7; 7; 7; 7; 7; 7; 7; 7; 7; 7; 7; 7; 7 ]) in
+      let st =
+        if cmd = "clone" then
+          clone_cmd_model { e_flags = { c_force_create = (flag = "force"); c_seed_output = (flag = "seed-output"); c_verify_output = false };
+                            e_archive = (if ak = "invalid" then AInvalid else AValid);
+                            e_pin = (match ak with "mismatch" | "prefix-pin" | "empty-pin" -> PinMismatch | "match-pin" -> PinMatch | _ -> NoPin);
+                            e_out = out; e_src = src10 }
+        else compress_cmd_model { z_flags = { z_force_create = (flag = "force") }; z_out = out; z_archive = src10 } in
+      let state =
+        match (out, st.s_out) with
+        | Absent, Absent -> "absent"
+        | Absent, _ -> "created"
+        | _, Absent -> "removed"
+        | a, b -> if a = b then "unchanged" else "modified" in
+      (if st.s_failed then "FAIL " else "OK ") ^ state
+  | _ -> failwith "cmd"
+
+let run_trace toks =
+  match toks with
+  | [ mode ] ->
+      let is_compress = String.length mode >= 8 && String.sub mode 0 8 = "compress" in
+      let outname = if is_compress then "new.cba" else "out.bin" in
+      let st =
+        if is_compress then
+          compress_cmd_model { z_flags = { z_force_create = (mode = "compress-force") }; z_out = (if mode = "compress-force" then Reg (nl [ 1 ]) else Absent); z_archive = src10 }
+        else
+          let inplace = (mode = "inplace" || mode = "inplace-seed-verify") in
+          clone_cmd_model { e_flags = { c_force_create = (mode = "verify"); c_seed_output = inplace; c_verify_output = (mode = "verify" || mode = "inplace-seed-verify") };
+                            e_archive = AValid; e_pin = NoPin; e_out = (if inplace then Reg (nl [ 3; 4 ]) else Absent); e_src = src10 } in
+      let effs = List.filter_map (function
+          | EOpenW (t, cr, ex, tr, ok) ->
+              let fl = List.filter_map (fun (b, s) -> if b then Some s else None) [ (cr, "O_CREAT"); (ex, "O_EXCL"); (tr, "O_TRUNC") ] in
+              Some ("openw:" ^ (if t = N0 then outname else "new..tmp") ^ ":" ^ String.concat "|" fl ^ (if ok then "" else ":failed"))
+          | EUnlink t -> Some ("unlink:" ^ (if t = N0 then outname else "new..tmp"))
+          | _ -> None) st.s_eff in
+      String.concat " " (List.sort compare effs)
+  | _ -> failwith "trace"
+
 let dispatch (line : string) : string =
   match split_on ' ' line with
   | "hash" :: r -> run_hash r
@@ -398,6 +448,9 @@ let dispatch (line : string) : string =
   | "protodec" :: r -> run_protodec r
   | "tryinit" :: r -> run_tryinit r
   | "compress" :: r -> run_compress r
+  | "compresscli" :: r -> run_compresscli r
+  | "cmd" :: r -> run_cmd r
+  | "trace" :: r -> run_trace r
   | "http" :: r -> run_http r
   | "httpat" :: r -> run_httpat r
   | "ioread" :: r -> run_ioread r
